@@ -412,6 +412,8 @@ func derive(md *model, r *fw.Rand, c caps) []*inv {
 			cli: []string{"sd", "-o", "out/sd.puml", "-s", s, "ROOTFILE"}})
 		add(&inv{gen: "sd", opt: "plantuml-groupby", family: famPuml, arg: s + " -g " + group, run: sdPuml([]string{s}, group, nil),
 			cli: []string{"sd", "-o", "out/sd.puml", "-s", s, "-g", group, "ROOTFILE"}})
+		add(&inv{gen: "sd", opt: "plantuml-full-label-formats", family: famPuml, arg: s, run: sdPumlFmt([]string{s}, "", sdFullEpFmt, sdFullAppFmt),
+			cli: []string{"sd", "-o", "out/sd.puml", "-s", s, "--endpoint_format", sdFullEpFmt, "--app_format", sdFullAppFmt, "ROOTFILE"}})
 		// a blackbox: the first call target of the start endpoint
 		bb := ""
 		walkStmts(m.GetApps()[ae[0]].GetEndpoints()[ae[1]].GetStmt(), func(st *sysl.Statement) {
